@@ -226,7 +226,7 @@ struct Gen {
                 if (x < K.p_small_cap)
                         cap = (int)r.range(6, 24);
                 else if (x < K.p_small_cap + K.p_large_cap)
-                        cap = (int)r.range(96, 256);
+                        cap = r.chance(0.25) ? (int)r.range(257, 1100) : (int)r.range(96, 256); // beyond 255: 8-bit positions wrap
                 else
                         cap = (int)r.range(24, 96);
                 cap = std::max(cap, (ncmd + 3) / 4);
